@@ -138,6 +138,37 @@ theorem gen_sender_for_bundle :
        "    return",
        "return"] := by decide
 
+/-- `purgePeers` only drops stale entries of the own peer list (`State.purge`); the node index is
+never shrunk. -/
+theorem gen_purge_peers :
+    Dtn7.Gen.C20.purgePeers =
+      ["currentTime := time.Now()", "dtlsr.dataMutex.Lock()", "defer dtlsr.dataMutex.Unlock()",
+       "for peerID, timestamp := range dtlsr.peers.Peers",
+       "  if timestamp != 0 && timestamp.Time().Add(dtlsr.purgeTime).Before(currentTime)",
+       "    delete(dtlsr.peers.Peers, peerID)", "    dtlsr.peerChange = true"] := by decide
+
+/-- `ReportFailure`: only for broadcast bundles; the failed peer (first occurrence) is removed from
+the stored sent list (`reportFailure`). -/
+theorem gen_report_failure :
+    Dtn7.Gen.C20.reportFailure =
+      ["bndl, err := bp.Bundle()",
+       "if err != nil || bndl.PrimaryBlock.Destination != dtlsr.broadcastAddress",
+       "  return",
+       "dtlsr.failureMutex.Lock()",
+       "defer dtlsr.failureMutex.Unlock()",
+       "bundleItem, err := dtlsr.c.store.QueryId(bp.Id)",
+       "if err != nil",
+       "  return",
+       "sentEids, ok := bundleItem.Properties[\"routing/dtlsr/sent\"].([]bpv7.EndpointID)",
+       "if !ok",
+       "  return",
+       "for i := 0; i < len(sentEids); i++",
+       "  if sentEids[i] == sender.GetPeerEndpointID()",
+       "    sentEids = append(sentEids[:i], sentEids[i+1:]...)",
+       "    break",
+       "bundleItem.Properties[\"routing/dtlsr/sent\"] = sentEids",
+       "if err := dtlsr.c.store.Update(bundleItem); err != nil"] := by decide
+
 theorem gen_filter_clas :
     Dtn7.Gen.C20.filterCLAs =
       ["filtered = make([]cla.ConvergenceSender, 0)",
@@ -466,31 +497,70 @@ theorem unicast_forward_only_direct_or_next_hop (table : Table) (clas sent : Lis
   obtain ⟨h1, h2, h3⟩ := Lemmas.forwardTargets_unicast table clas sent d
   exact ⟨h1, fun hne => by simp [released, h2 hne], h3⟩
 
-/-- **Broadcast, one attempt**: the chosen senders are pairwise different connected peers that are
-not yet in the sent list; every connected peer is in the sent list or chosen; the new sent list is
-the old one plus the chosen peers; the bundle is kept (`delete = false`); an immediate second
-attempt chooses nobody. -/
-theorem broadcast_once_per_peer (table : Table) (clas sent : List Nat) :
+/-- **Broadcast, the choice of one forwarding run** (`SenderForBundle`): the chosen senders are
+pairwise different connected peers that are not yet in the sent list; every connected peer is in
+the sent list or chosen; the new sent list is the old one plus the chosen peers; the bundle is
+kept (`delete = false`). -/
+theorem broadcast_choice (table : Table) (clas sent : List Nat) :
     let r := senderForBundle table clas sent .broadcast
     r.senders.Nodup ∧ (∀ c ∈ r.senders, c ∈ clas ∧ c ∉ sent) ∧
-    (∀ c ∈ clas, c ∈ sent ∨ c ∈ r.senders) ∧ r.sent = sent ++ r.senders ∧ r.delete = false ∧
-    (senderForBundle table clas r.sent .broadcast).senders = [] := by
+    (∀ c ∈ clas, c ∈ sent ∨ c ∈ r.senders) ∧ r.sent = sent ++ r.senders ∧ r.delete = false := by
   obtain ⟨h1, h2, h3, h4⟩ := Lemmas.filterCLAs_spec clas sent
-  exact ⟨h2, h3, h4, h1, rfl, Lemmas.filterCLAs_again sent clas⟩
+  exact ⟨h2, h3, h4, h1, rfl⟩
 
-/-- **Broadcast, whole history**: over any sequence of forwarding attempts (each seeing the then
-connected peers, the sent list persisted in between) no peer is served twice, nobody already in
-the sent list is served, and every peer connected at some attempt has been served. -/
-theorem broadcast_history_once (sent : List Nat) (hist : List (List Nat)) :
-    (broadcastHistory sent hist).Nodup ∧
-    (∀ c ∈ broadcastHistory sent hist, c ∉ sent ∧ ∃ clas ∈ hist, c ∈ clas) ∧
-    (∀ clas ∈ hist, ∀ c ∈ clas, c ∈ sent ∨ c ∈ broadcastHistory sent hist) :=
-  Lemmas.broadcastHistory_spec hist sent
+/-- **Broadcast, one forwarding run including the failure reports**: the bundle is handed, once
+each, to exactly the connected peers outside the sent list; afterwards the sent list holds what
+it held plus the peers served *successfully* — a peer whose transmission failed is out again
+(`ReportFailure`). Consequently an immediate second run over the same peers serves exactly the
+peers that failed, and nobody if nothing failed. -/
+theorem broadcast_once_per_peer (sent clas fails : List Nat) :
+    (broadcastAttempt sent clas fails).1.Nodup ∧
+    (∀ x, x ∈ (broadcastAttempt sent clas fails).1 ↔ x ∈ clas ∧ x ∉ sent) ∧
+    (∀ x, x ∈ (broadcastAttempt sent clas fails).2 ↔
+      x ∈ sent ∨ (x ∈ clas ∧ x ∉ sent ∧ x ∉ fails)) ∧
+    (∀ fails₂ x, x ∈ (broadcastAttempt (broadcastAttempt sent clas fails).2 clas fails₂).1 ↔
+      x ∈ clas ∧ x ∉ sent ∧ x ∈ fails) := by
+  obtain ⟨h1, h2, h3⟩ := Lemmas.broadcastAttempt_spec sent clas fails
+  refine ⟨h1, h2, h3, ?_⟩
+  intro fails₂ x
+  rw [(Lemmas.broadcastAttempt_spec _ clas fails₂).2.1 x, h3 x]
+  constructor
+  · rintro ⟨hc, hn⟩
+    refine ⟨hc, fun hs => hn (Or.inl hs), ?_⟩
+    apply Classical.byContradiction
+    intro hf
+    exact hn (Or.inr ⟨hc, fun hs => hn (Or.inl hs), hf⟩)
+  · rintro ⟨hc, hs, hf⟩
+    refine ⟨hc, ?_⟩
+    rintro (h | ⟨_, _, hnf⟩)
+    · exact hs h
+    · exact hnf hf
+
+/-- **Broadcast, whole history**: over any sequence of forwarding runs (each seeing the then
+connected peers and its own set of failing transmissions, the sent list persisted in between)
+nobody who already had the bundle is served, and whenever a peer is served twice the earlier
+transmission had failed — at most one successful transmission per peer, none after a success. -/
+theorem broadcast_history_once (sent : List Nat) (hist : List (List Nat × List Nat)) :
+    (∀ e ∈ broadcastLog sent hist, e.1 ∉ sent) ∧
+    (broadcastLog sent hist).Pairwise (fun a b => a.1 = b.1 → a.2 = false) :=
+  Lemmas.broadcastLog_spec hist sent
+
+/-- The model meets the per-run broadcast Spec (`broadcastRunOk`) that the driver evaluates on the
+implementation's transmissions. -/
+theorem broadcast_model_meets_spec (sent clas fails had0 succ : List Nat)
+    (hs : ∀ x, x ∈ sent ↔ x ∈ had0 ∨ x ∈ succ) :
+    broadcastRunOk had0 succ clas (broadcastAttempt sent clas fails).1 = true :=
+  Lemmas.broadcastAttempt_runOk sent clas fails had0 succ hs
 
 example : senderForBundle [(3, 2)] [1, 2] [] (.node 3) = ⟨[2], true, []⟩ := by decide
 example : senderForBundle [(3, 4)] [1, 2] [] (.node 3) = ⟨[], false, []⟩ := by decide
 example : forwardTargets [(3, 2)] [1, 2, 3] [] (.node 3) = ⟨[3], true, []⟩ := by decide
 example : senderForBundle [(3, 2)] [1, 2, 4] [4] .broadcast = ⟨[1, 2], false, [4, 1, 2]⟩ := by decide
-example : broadcastHistory [4] [[1, 2, 4], [1, 2, 4], [1, 2, 4, 5]] = [1, 2, 5] := by decide
+example : broadcastAttempt [4] [1, 2, 4] [2] = ([1, 2], [4, 1]) := by decide
+example : broadcastLog [4] [([1, 2, 4], [2]), ([1, 2, 4], [2]), ([1, 2, 4, 5], [])] =
+    [(1, true), (2, false), (2, false), (2, true), (5, true)] := by decide
+example : broadcastRunOk [4] [1] [1, 2, 4] [2] = true := by decide
+example : broadcastRunOk [4] [1] [1, 2, 4] [1, 2] = false := by decide   -- served again after a success
+example : broadcastRunOk [4] [1] [1, 2, 4] [] = false := by decide       -- the failed peer is not retried
 
 end Dtn7.Props.C20
